@@ -19,7 +19,7 @@ def make(spec):
     if n >= nt:
         atom_types[:nt] = range(nt)
     kw = dict(atom_types=atom_types, positions=[[round(rnd.uniform(-3, 9), 5) for _ in range(3)] for _ in range(n)],
-              charges=[round(rnd.uniform(-1.5, 1.5), 5) for _ in range(n)], groups=[rnd.randrange(3) for _ in range(n)],
+              charges=[round(rnd.uniform(-1.5, 1.5), 5) for _ in range(n)], groups=[(3 * rnd.randrange(3) + 2) if (spec['seed'] // 4) % 2 else rnd.randrange(3) for _ in range(n)],   # also sparse molecule ids that do not start at 0
               atom_type_elements=els, atom_type_masses=masses, atom_type_labels=["%s_%d" % (e, i) for i, e in enumerate(els)])
     cell = spec['cell']
     if cell == 'ortho':
@@ -183,7 +183,7 @@ REPLAY = {'lmpdat': replay}
 
 def run(rec, tier, seed):
     rec.rule = ("generated structures: 1-4 atoms, 1-3 atom types, 0-2 terms per kind with 1-3 types per kind (different numbers per kind), coefficient "
-                "strings without / with one trailing comment / absent (also a kind with terms but no table), cells {none, orthorhombic, tilted, partly "
+                "contiguous and sparse molecule ids, strings without / with one trailing comment / absent (also a kind with terms but no table), cells {none, orthorhombic, tilted, partly "
                 "tilted, tilts of 1e-5..1e-4}, negative charges and coordinates, both atom styles; the written text is parsed by an independent reader "
                 "and compared with the structure, re-read with mofun and compared, re-written to a byte-identical fixed point; path / file-object "
                 "dispatch of Atoms.save / Atoms.load. distinct = specs")
@@ -197,8 +197,8 @@ def run(rec, tier, seed):
             for coeffs in (False, True, 'comment'):
                 for style in ('full', 'atomic'):
                     k += 1
-                    if tier == 'quick' and k % 2:
-                        continue
+                    if tier == 'quick' and (k // 2) % 2:
+                        continue     # every second (full, atomic) pair
                     spec = dict(n=rnd.choice([1, 2, 4, 4]) if not terms else 4, ntypes=rnd.choice([1, 2, 3]), cell=cell, terms=terms, termtypes=ttypes[k % 3], coeffs=coeffs,
                                 style=style, seed=seed * 1000 + k, dispatch=(k % 10 == 0), no_table=(['improper'] if (k % 4 == 0 and coeffs) else []))
                     msg = check(spec)
